@@ -118,7 +118,7 @@ func cmdFn(argv []string) int {
 		solveAll(res.VC.covers, SolverCfg{WorkDir: filepath.Join(work, "covers"), TimeoutS: 3, KeepFiles: *keep})
 		for _, o := range res.VC.covers {
 			if o.Status == "unsat" {
-				fmt.Printf("  VACUOUS  unreachable: %s\n", o.ID)
+				fmt.Printf("  VACUOUS  unreachable: %s (%s:%d)\n", o.ID, filepath.Base(o.Pos.Filename), o.Pos.Line)
 				rc = 2
 			}
 		}
